@@ -91,6 +91,7 @@ func runC04SA(r *simkit.Run, c Cfg) {
 		r.Fault("link-down-before-announcement")
 		pw.mn.DisconnectPeers(pw.recv.ID(), pw.send.ID())
 		pw.mn.UnlinkPeers(pw.recv.ID(), pw.send.ID())
+		r.Settle()
 		fired = true
 	case 1, 2:
 		onRead = func(n int) {
@@ -105,6 +106,7 @@ func runC04SA(r *simkit.Run, c Cfg) {
 			} else {
 				r.Fault("streams-reset")
 			}
+			r.Settle() // as in C04S: the teardown finishes while the request is held
 		}
 	}
 	evs := announce("announce")
